@@ -39,6 +39,38 @@ func (fe *FuncEnc) freshResults(st *State, sig *types.Signature, hint string) []
 	return out
 }
 
+// fieldFuncKey: for a call through a function value loaded from a struct field,
+// the contract key "<pkg>.(<Struct>).<field>.call".
+func fieldFuncKey(v ssa.Value) string {
+	var st types.Type
+	var idx int
+	switch x := v.(type) {
+	case *ssa.UnOp:
+		fa, ok := x.X.(*ssa.FieldAddr)
+		if !ok || x.Op != token.MUL {
+			return ""
+		}
+		pt, ok := fa.X.Type().Underlying().(*types.Pointer)
+		if !ok {
+			return ""
+		}
+		st, idx = pt.Elem(), fa.Field
+	case *ssa.Field:
+		st, idx = x.X.Type(), x.Field
+	default:
+		return ""
+	}
+	named, ok := st.(*types.Named)
+	if !ok || named.Obj().Pkg() == nil {
+		return ""
+	}
+	str, ok := named.Underlying().(*types.Struct)
+	if !ok || idx >= str.NumFields() {
+		return ""
+	}
+	return named.Obj().Pkg().Path() + ".(" + named.Obj().Name() + ")." + str.Field(idx).Name() + ".call"
+}
+
 func (fe *FuncEnc) callCommon(v ssa.Value, c *ssa.CallCommon, st *State, args []string, pos token.Pos) {
 	sig := c.Signature()
 	hint := "call"
@@ -92,6 +124,35 @@ func (fe *FuncEnc) callCommon(v ssa.Value, c *ssa.CallCommon, st *State, args []
 				}
 			}
 			calleeName = "dynamic call"
+			// a function stored in a struct field, with a contract on the field
+			// ("<pkg>.(<Struct>).<field>.call", first parameter "self")
+			if key := fieldFuncKey(c.Value); key != "" {
+				if ct := fe.eng.cs.Funcs[key]; ct != nil {
+					contract = ct
+					calleeName = key
+					paramNames = append(paramNames, "self")
+					for i := 0; i < sig.Params().Len(); i++ {
+						paramNames = append(paramNames, sig.Params().At(i).Name())
+					}
+					args = append([]string{fe.val(c.Value)}, args...)
+					sig = types.NewSignatureType(types.NewVar(token.NoPos, nil, "self", c.Value.Type()), nil, nil, sig.Params(), sig.Results(), sig.Variadic())
+				}
+			}
+			// a value of a named function type with a contract on the type
+			// ("<pkg>.(<Type>).call", first parameter "self")
+			if named, ok := c.Value.Type().(*types.Named); ok && named.Obj().Pkg() != nil {
+				key := named.Obj().Pkg().Path() + ".(" + named.Obj().Name() + ").call"
+				if ct := fe.eng.cs.Funcs[key]; ct != nil {
+					contract = ct
+					calleeName = key
+					paramNames = append(paramNames, "self")
+					for i := 0; i < sig.Params().Len(); i++ {
+						paramNames = append(paramNames, sig.Params().At(i).Name())
+					}
+					args = append([]string{fe.val(c.Value)}, args...)
+					sig = types.NewSignatureType(types.NewVar(token.NoPos, named.Obj().Pkg(), "self", named), nil, nil, sig.Params(), sig.Results(), sig.Variadic())
+				}
+			}
 		} else {
 			if mc, ok := c.Value.(*ssa.MakeClosure); ok {
 				var bind []string
